@@ -47,7 +47,7 @@ open Tfl Tfl.Poset Tfl.Linear Tfl.Verify
 
 /-- **bridge**: the function the driver runs (`lin.project` calls `Tfl.Linear.project`) is
 `projectPre` followed by `normalize` — by definition. -/
-theorem project_eq (monos : List Int) (md rd : Pairs) (los his : List (Option Rat)) (ord : NormOrd)
+theorem project_eq (monos : List Int) (md rd : Pairs) (los his : List (Option Rat)) (ord : Linear.NormOrd)
     (w : List Rat) :
     Linear.project monos md rd los his ord w =
       (projectPre monos md rd los his w).map (normalize ord) := rfl
@@ -120,7 +120,7 @@ theorem normalize_unit_fix (w : List Rat) :
   constructor <;> intro e <;> simp only [normalize, e, if_neg h1] <;> exact map_div_one w
 
 /-- normalising twice is normalising once -/
-theorem normalize_idem (ord : NormOrd) (w : List Rat) :
+theorem normalize_idem (ord : Linear.NormOrd) (w : List Rat) :
     normalize ord (normalize ord w) = normalize ord w := by
   cases ord
   · rfl
@@ -220,7 +220,7 @@ does not raise, and its result `out`
 * is a FIXPOINT of the whole `project`, normalisation included: `project out = out`.
 For order 2 the model returns `pre` (`project_l2_eq_pre`); see `accepted_project_l2`. -/
 theorem accepted_project (nid : Option Nat) (mv mdv rdv iminv imaxv : Val) (c : LinCfg)
-    (h : verifyLinear nid mv mdv rdv iminv imaxv = .ok c) (ord : NormOrd)
+    (h : verifyLinear nid mv mdv rdv iminv imaxv = .ok c) (ord : Linear.NormOrd)
     (w : List Rat) (hlen : w.length = c.monos.length) :
     ∃ pre out, projectPre c.monos c.md c.rd c.los c.his w = .ok pre ∧
       Linear.project c.monos c.md c.rd c.los c.his ord w = .ok out ∧
@@ -255,7 +255,7 @@ real `project` checks the number of weights only against a given `monotonicities
 code raises `TypeError` here (`any(None)`): finding F-C06-c, `repo_patches/F-C06-c.diff`; the model is
 the repaired behaviour. -/
 theorem accepted_project_no_monotonicities (nid : Option Nat) (mv mdv rdv iminv imaxv : Val) (c : LinCfg)
-    (h : verifyLinear nid mv mdv rdv iminv imaxv = .ok c) (hn : c.mono = Option.none) (ord : NormOrd)
+    (h : verifyLinear nid mv mdv rdv iminv imaxv = .ok c) (hn : c.mono = Option.none) (ord : Linear.NormOrd)
     (w : List Rat) :
     c.monos = [] ∧ c.md = [] ∧ c.rd = [] ∧
     Linear.project c.monos c.md c.rd c.los c.his ord w = .ok (normalize ord w) ∧
@@ -269,7 +269,7 @@ theorem accepted_project_no_monotonicities (nid : Option Nat) (mv mdv rdv iminv 
 
 /-- the same for the constraints class: `LinearConstraints(**r)(w)` for every accepted `r` -/
 theorem accepted_project_constraints (r : RawLinC) (c : LinCfg) (h : linearConstraints r = .ok c)
-    (ord : NormOrd) (w : List Rat) (hlen : w.length = c.monos.length) :
+    (ord : Linear.NormOrd) (w : List Rat) (hlen : w.length = c.monos.length) :
     ∃ pre out, projectPre c.monos c.md c.rd c.los c.his w = .ok pre ∧
       Linear.project c.monos c.md c.rd c.los c.his ord w = .ok out ∧
       out.length = w.length ∧
@@ -287,7 +287,7 @@ configurations: a column with one entry per input that has the configured signs,
 monotonic- and scaled range-dominance pair and — when a norm is requested — already has unit norm
 of that order (or is below the guard) is returned unchanged. -/
 theorem accepted_full_fixpoint (nid : Option Nat) (mv mdv rdv iminv imaxv : Val) (c : LinCfg)
-    (h : verifyLinear nid mv mdv rdv iminv imaxv = .ok c) (ord : NormOrd)
+    (h : verifyLinear nid mv mdv rdv iminv imaxv = .ok c) (ord : Linear.NormOrd)
     (w : List Rat) (hlen : w.length = c.monos.length)
     (hsign : ∀ k, SignOk (getM c.monos k) (getV w k))
     (hmd : ∀ p ∈ c.md, getV w p.2 ≤ getV w p.1)
